@@ -496,3 +496,47 @@ func (g *gen) genAccept() {
 		entry(g.bytes(g.intn(12)))
 	}
 }
+
+// ---------------------------------------------------------------- C15 / C16 mixed workloads
+
+// genMixed: a random sequence of encodes across all symbologies and parameters (and Scale); repetitions are
+// deliberate (same call at different points of the history), so ops are written without de-duplication.
+func (g *gen) genMixed(n int, withMut bool) {
+	pool := g.representativeOps(false)
+	small := []string{}
+	for _, op := range pool {
+		if w, h, ok := sizeOf(op); ok && w*h < 3000 {
+			small = append(small, op)
+		}
+	}
+	put := func(s string) { fmt.Fprintln(g.w, s) }
+	for i := 0; i < n; i++ {
+		switch g.intn(10) {
+		case 0, 1, 2:
+			put(pool[g.intn(len(pool))])
+		case 3:
+			// QR / DataMatrix / Aztec with varying sizes: exercises the shared RS caches in changing degree order
+			v := 1 + g.intn(20)
+			lvl := g.intn(4)
+			put(fmt.Sprintf("qr %s %d 3", hx(g.str("abcdefgh", qrCapacity(v, lvl, 3))), lvl))
+		case 4:
+			put(fmt.Sprintf("dm %s", hx(g.dmContent(g.intn(5), dmCaps[g.intn(18)]))))
+		case 5:
+			put(fmt.Sprintf("aztec %s %d %d", hx(g.str("Aztec 12,abc.\x80", 1+g.intn(120))), []int{0, 23, 33, 100}[g.intn(4)], []int{0, 0, -3, 5, 12}[g.intn(5)]))
+		case 6:
+			put(fmt.Sprintf("pdf %s %d", hx(g.str("PDF417 text, 0123456789;\x80", g.intn(200))), g.intn(9)))
+		case 7:
+			src := small[g.intn(len(small))]
+			w, h, _ := sizeOf(src)
+			put(fmt.Sprintf("scale %d %d - %s", w+g.intn(2*w), h+g.intn(2*h+1), src))
+		case 8:
+			put(small[g.intn(len(small))] + " " + g.randScheme())
+		case 9:
+			if withMut {
+				put(fmt.Sprintf("mut aztec %s %d %d", hx(g.str("Aztec 12,abc.\x80\xff", g.intn(60))), []int{0, 33}[g.intn(2)], []int{0, 0, -2, 7}[g.intn(4)]))
+			} else {
+				put(fmt.Sprintf("c39 %s %d %d", hx(g.str(c39Alphabet, g.intn(20))), g.intn(2), 0))
+			}
+		}
+	}
+}
